@@ -212,7 +212,7 @@ def single_models(tier):
 
 def double_models():
     out = []
-    pts = [1000500, 2040000, 3999999, 5000000, 8040000, 10000001]
+    pts = [1000500, 2040000, 3999999, 9040000, 10000001, 12500000]  # millisecond counts of four and of five digits
     for a in itertools.combinations(range(6), 2):
         for b in itertools.combinations(range(6), 4):
             out.append([
